@@ -18,6 +18,7 @@ CONSTANTS
   MaxDamage = 2
   DamageKinds = {"crc", "type", "zero"}
   CrcQuarantinesBlock = FALSE
+  MinOpsBeforeCrash = 0
 INIT MCInit
 NEXT MCNext
 INVARIANTS VerdictOk BatchAtomic BufInv
